@@ -1,0 +1,51 @@
+//go:build verif
+// +build verif
+
+package wasp
+
+import (
+	"github.com/vx-labs/wasp/v4/wasp/ack"
+	"github.com/vx-labs/wasp/v4/wasp/distributed"
+)
+
+// Verification hooks (build tag verif): expose the unexported identifier pool and allow a writer
+// with a small identifier range so that exhaustion and leaks are reachable within small bounds.
+
+// VerifMIDPool is the identifier pool as seen by the verification harness.
+type VerifMIDPool interface {
+	Get() int32
+	Put(int32)
+	// Intervals returns a copy of the allocator's internal free list.
+	Intervals() [][2]int32
+}
+
+type verifPool struct{ p *simpleMidPool }
+
+func (v verifPool) Get() int32  { return v.p.Get() }
+func (v verifPool) Put(i int32) { v.p.Put(i) }
+func (v verifPool) Intervals() [][2]int32 {
+	v.p.mtx.Lock()
+	defer v.p.mtx.Unlock()
+	out := make([][2]int32, len(v.p.intervals))
+	for i, iv := range v.p.intervals {
+		out[i] = [2]int32{iv.from, iv.to}
+	}
+	return out
+}
+
+// VerifNewMIDPool returns the production pool over [min,max].
+func VerifNewMIDPool(min, max int32) VerifMIDPool {
+	return verifPool{p: newMIDPool(min, max).(*simpleMidPool)}
+}
+
+// VerifNewWriter is NewWriter with a chosen identifier range.
+func VerifNewWriter(peerID uint64, subscriptions distributed.SubscriptionsState, local LocalState, ackQueue ack.Queue, min, max int32) *writer {
+	w := NewWriter(peerID, subscriptions, local, ackQueue)
+	w.midPool = newMIDPool(min, max)
+	return w
+}
+
+// VerifWriterPool exposes the pool of a writer built by NewWriter/VerifNewWriter.
+func VerifWriterPool(w Writer) VerifMIDPool {
+	return verifPool{p: w.(*writer).midPool.(*simpleMidPool)}
+}
